@@ -1091,6 +1091,27 @@ impl<'r> Gen<'r> {
         for _ in 0..n {
             b.stmts.extend(self.stmt(depth));
         }
+        // now and then the block is left in the middle: what follows is dead but ordinary code
+        // (definitions of closures included) that still has to compile to loadable Lua
+        let pure = self.ctx.last().map(|c| c.pure).unwrap_or(false);
+        if !pure && !self.no_effects && !self.ctx.is_empty() && self.rng.chance(1, 20) {
+            self.feat("dead_code_after_exit");
+            let (in_loop, ret_ty) = self.ctx.last().map(|c| (c.in_loop, c.ret.clone())).unwrap_or((false, Ty::Void));
+            let exit = if in_loop && self.rng.chance(1, 2) {
+                if self.rng.chance(1, 2) {
+                    Stmt::Break
+                } else {
+                    Stmt::Continue
+                }
+            } else if ret_ty == Ty::Void {
+                Stmt::Ret(None)
+            } else {
+                Stmt::Ret(Some(self.expr(&ret_ty, 1)))
+            };
+            b.stmts.push(exit);
+            let tail = if self.rng.chance(1, 2) { self.closure_def(0).unwrap_or_default() } else { self.stmt(depth.saturating_sub(1)) };
+            b.stmts.extend(tail);
+        }
         self.neutral_tail(&mut b);
         self.scopes.pop();
         b
